@@ -164,8 +164,8 @@ def mutate_everything(obj, rng) -> int:
     return n
 
 
-def check_copy(run, rng, orig, make_copy: Callable[[], Any], label: str, engine: str, case: Any) -> int:
-    """Completeness + independence for one object and one way of copying it."""
+def check_copy(run, rng, orig, make_copy: Callable[[], Any], label: str, engine: str, case: Any, complete: bool = True) -> int:
+    """Completeness (unless the copy is documented to leave something out) + independence for one object and one way of copying it."""
     ex0 = export_of(orig)
     try:
         cp = make_copy()
@@ -177,7 +177,7 @@ def check_copy(run, rng, orig, make_copy: Callable[[], Any], label: str, engine:
     if export_of(orig) != ex0:
         run.violation(f'{label}: copying changed the original', case=case, engine=engine, key=f'copy-mutates-source:{label}')
         return 0
-    if blank(ex_c) != blank(ex0):
+    if complete and blank(ex_c) != blank(ex0):
         l1, l2 = blank(ex0).splitlines(), blank(ex_c).splitlines()
         k = next((i for i, (x, y) in enumerate(zip(l1, l2)) if x != y), min(len(l1), len(l2)))
         field = (l1[k] if k < len(l1) else l2[k] if k < len(l2) else '').strip().split('"')
@@ -414,8 +414,50 @@ def one_case(run, seed: int, i: int, engine: str = 'copy') -> None:
         muts += check_copy(run, rng, e, lambda e=e: e.copy(), 'Entity.copy', engine, case)
     for e in list(vmf.entities)[:3]:
         muts += check_copy(run, rng, e, lambda e=e: e.copy(vmf_file=other), 'Entity.copy(other map)', engine, case)
+    # the copy options: an ID mapping to fill in, visibility state left behind, and the map every part of the copy belongs to
+    for e in [x for x in ents if x.solids][:2] + ents[:1]:
+        mapping: Dict[int, int] = {}
+        try:
+            cp = e.copy(side_mapping=mapping, vmf_file=other if i % 2 else None)
+        except Exception as exc:
+            run.violation(f'Entity.copy(side_mapping=...) raised {exc!r}', case=case, engine=engine, key='copy-raises:Entity.copy(options)')
+            continue
+        old_ids = [f.id for sol in e.solids for f in sol.sides]
+        new_ids = [f.id for sol in cp.solids for f in sol.sides]
+        run.count('copy_option_checks')
+        if len(old_ids) != len(new_ids) or any(mapping.get(o) != n for o, n in zip(old_ids, new_ids)) or len(mapping) != len(set(old_ids)):
+            run.violation('Entity.copy(side_mapping=m): m does not map every old face ID to the ID of its copy',
+                          witness={'old': old_ids[:12], 'new': new_ids[:12], 'mapping': dict(list(mapping.items())[:12])}, case=case, engine=engine,
+                          key='copy-side-mapping-wrong')
+        want_map = other if i % 2 else vmf
+        owners = [('entity', cp.map)] + [('solid', sol.map) for sol in cp.solids] + [('face', f.map) for sol in cp.solids for f in sol.sides]
+        wrong = [k for k, m_ in owners if m_ is not want_map]
+        if wrong:
+            run.violation(f'Entity.copy({"vmf_file=other" if i % 2 else ""}): parts of the copy belong to another map than the copy: {sorted(set(wrong))}',
+                          case=case, engine=engine, key='copy-belongs-to-wrong-map')
+        muts += check_copy(run, rng, e, lambda e=e: e.copy(keep_vis=False), 'Entity.copy(keep_vis=False)', engine, case, complete=False)
+    # a copy of worldspawn (whose solids list IS the map's brush list) is an ordinary entity of its own
+    try:
+        w0 = export_of(vmf.spawn)
+        wcp = vmf.spawn.copy()
+        n_brushes = len(vmf.brushes)
+        muts += mutate_everything(wcp, rng)
+        wcp.solids.clear()
+        if export_of(vmf.spawn) != w0 or len(vmf.brushes) != n_brushes:
+            run.violation('mutating a copy of worldspawn changed the world of the map', case=case, engine=engine, key='copy-aliases:Entity.copy(worldspawn)')
+    except Exception as exc:
+        run.violation(f'copying worldspawn raised {exc!r}', witness=traceback.format_exc()[-900:], case=case, engine=engine,
+                      key='copy-raises:Entity.copy(worldspawn)')
     solids = list(vmf.brushes) + [s for e in vmf.entities for s in e.solids]
     rng.shuffle(solids)
+    for sol in solids[:2]:
+        muts += check_copy(run, rng, sol, lambda sol=sol: sol.copy(keep_vis=False), 'Solid.copy(keep_vis=False)', engine, case, complete=False)
+        cp_s = sol.copy(vmf_file=other)
+        if cp_s.map is not other or any(f.map is not other for f in cp_s.sides):
+            run.violation('Solid.copy(vmf_file=other): the copy or its faces belong to the source map', case=case, engine=engine,
+                          key='copy-belongs-to-wrong-map')
+        for f in sol.sides[:1]:
+            muts += check_copy(run, rng, f, lambda f=f: f.copy(vmf_file=other), 'Side.copy(other map)', engine, case)
     for s in solids[:4]:
         key_text.append(export_of(s))
         muts += check_copy(run, rng, s, lambda s=s: s.copy(), 'Solid.copy', engine, case)
@@ -438,6 +480,7 @@ def one_case(run, seed: int, i: int, engine: str = 'copy') -> None:
         muts += check_copy(run, rng, c, lambda c=c: c.copy(), type(c).__name__ + '.copy', engine, case)
     for g in list(vmf.groups.values())[:1]:
         muts += check_copy(run, rng, g, lambda g=g: g.copy(), 'EntityGroup.copy', engine, case)
+        muts += check_copy(run, rng, g, lambda g=g: g.copy(other), 'EntityGroup.copy(other map)', engine, case)
     check_operators(run, rng, engine, case)
     run.count('mutations_applied', muts)
     run.case(key_text or ['empty', i], muts > 0, sample={'id': i, 'features': features, 'mutations': muts} if i < 2 else None, tag=engine)
@@ -459,7 +502,7 @@ def main(run, shard=(0, 1)) -> None:
             one_case(run, run.seed, i)
     probe.report(run)
     probe.check_reached(run)
-    run.require('copies', 'mutations_applied', 'operator_checks', 'displacement_copies', 'math_operator_applications')
+    run.require('copies', 'mutations_applied', 'operator_checks', 'displacement_copies', 'math_operator_applications', 'copy_option_checks')
 
 
 def replay(run, data) -> None:
